@@ -1266,6 +1266,33 @@ pub fn stream_replace<C: Case, A: Automaton, const T: usize, const W: usize, con
     core::mem::forget(res);
 }
 
+/// C18 (writer side, slice-table variant): `try_stream_replace_all` (one
+/// replacement per pattern) with a writer that fails at a symbolic call: the
+/// failure surfaces as `Err`, the writer is not used again, and without a
+/// failure the call returns `Ok` with every byte handed to the caller's writer
+/// before it returns.
+#[cfg(kani)]
+pub fn stream_wfault_tbl<C: Case, A: Automaton, const T: usize, const W: usize>(aut: &A) {
+    aho_corasick::verif::buffer::set_spare_capacity(Some(1));
+    let hay: [u8; T] = any();
+    let rdr = SymReader::new(&hay[..], 0, usize::MAX);
+    let fail_at: usize = any();
+    let mut wtr = SymWriter::<W> { out: [0; W], len: 0, calls: 0, fail_at, failed: false, overflow: false, partial: false };
+    let table: [&[u8]; 2] = [b"0", b"1"];
+    assert!(C::NPATS == 2);
+    let res = aut.try_stream_replace_all(rdr, &mut wtr, &table[..]);
+    if wtr.failed {
+        assert!(res.is_err(), "writer failure not reported");
+        assert!(wtr.calls == fail_at + 1, "the writer is used again after it failed");
+    } else {
+        assert!(res.is_ok(), "stream replacement failed without a fault");
+        assert!(wtr.len == T, "bytes are still held back when stream replacement returns Ok");
+    }
+    cover!(wtr.failed, "a writer failure");
+    cover!(!wtr.failed, "no failure");
+    core::mem::forget(res);
+}
+
 // ---------------------------------------------------------------------------
 // C12: replace_all
 
